@@ -93,7 +93,10 @@ Mismatch(expected, pack) == (expected = "Success") # (pack = "ok")
 \* cannot be built, so build_internal panics before pack is invoked - it already owns the Docker
 \* resource names and the temporary directories at that point
 \* pack = "missing": there is no `pack` executable on PATH (CommandError::NotFound): same shape
-PackCmds(pack) == IF pack \in {"nopack", "missing"} THEN <<>> ELSE <<Cmd("pack-build", "img")>>
+\* pack = "nocopy": a preprocessor is configured but the fixture cannot be copied (app::copy_app
+\* fails, e.g. on a dangling symlink): the panic comes even before the buildpack directory exists
+NoPack == {"nopack", "missing", "nocopy"}
+PackCmds(pack) == IF pack \in NoPack THEN <<>> ELSE <<Cmd("pack-build", "img")>>
 
 \* TestRunner::build: temp dir for packaged buildpacks (+ private app copy when a preprocessor
 \* is configured), pack build, expectation check.  A mismatch panics inside build_internal,
@@ -101,10 +104,11 @@ PackCmds(pack) == IF pack \in {"nopack", "missing"} THEN <<>> ELSE <<Cmd("pack-b
 StartBuild(expected, pack, preproc) ==
   /\ stack = <<>> /\ script = <<>> /\ ~done
   /\ script' = <<Step("build", [expected |-> expected, pack |-> pack, preproc |-> preproc])>>
-  /\ LET t == IF preproc THEN 2 ELSE 1 IN
+  /\ (pack = "nocopy" => preproc)
+  /\ LET t == IF pack = "nocopy" THEN 0 ELSE IF preproc THEN 2 ELSE 1 IN
      /\ Issue(<<Cmd("temp", t)>> \o PackCmds(pack))
      /\ stack' = <<[k |-> "build", ctx |-> TRUE, temps |-> t, c |-> "-"]>>
-  /\ unwinding' = (pack \in {"nopack", "missing"} \/ Mismatch(expected, pack))
+  /\ unwinding' = (pack \in NoPack \/ Mismatch(expected, pack))
   /\ UNCHANGED <<nextc, done>>
 
 InBuild == Len(stack) > 0 /\ Top.k = "build" /\ ~unwinding /\ ~done
@@ -185,7 +189,7 @@ Finish ==
 
 Outcomes == {"ok", "fail"}
 Next ==
-  \/ \E e \in {"Success", "Failure"}, p \in Outcomes \cup {"nopack", "missing"}, pre \in BOOLEAN : StartBuild(e, p, pre)
+  \/ \E e \in {"Success", "Failure"}, p \in Outcomes \cup NoPack, pre \in BOOLEAN : StartBuild(e, p, pre)
   \/ \E n \in {"shell", "sbom"}, o \in Outcomes : ImageStep(n, o)
   \/ \E o \in Outcomes : StartContainer(o)
   \/ \E n \in {"logs", "port", "exec"}, o \in Outcomes : ContainerStep(n, o)
